@@ -81,8 +81,8 @@ def run(ctx):
                 ctx.case(("perm", n, type(obj).__name__, k % 5), {"N": n, "fftshift-src": ev["shiftsrc"], "axis": ev["axis"]})
     ctx.behaviours += len(evs)
     # ------------------------------------------------------------------ arbitrary lengths
-    lengths = [1, 2, 3, 5, 6, 7, 16, 31, 64, 127, 1024] + ([4099, 8192] if T else [])
-    for it in range(len(lengths) * (6 if T else 3)):
+    lengths = [1, 2, 3, 5, 6, 7, 16, 31, 64, 127, 1024] + ([3001, 4099, 8192, 16384] if T else [])
+    for it in range(len(lengths) * (40 if T else 3)):
         n = lengths[it % len(lengths)]
         fs = setgv(it)
         rs = np.random.RandomState(1000 + it)
